@@ -60,3 +60,44 @@ def run_cases(ctx, name, cases, impl_factory, oracle=None, nontrivial=None, chun
             flush()
     flush()
     return total_mism
+
+
+def replay_ops(path, impl_factory, oracles):
+    """`./check Cxx --replay file`: re-execute the recorded op lines on the current
+    tree and on the compiled model, re-evaluate the oracle named in the
+    signature; exit code 1 while the problem still shows, 0 once it is gone."""
+    import json
+    rec = json.load(open(path))
+    rp = rec.get("replay") or {}
+    ops = rp.get("ops")
+    if not ops and rec.get("broken"):
+        for b in rec["broken"]:
+            if b.get("ops"):
+                ops = b["ops"]
+                break
+    if not ops:
+        print("replay file holds no op sequence (proof breakage or a scenario-level witness): rerun the check")
+        print(json.dumps(rec, indent=1, default=str)[:3000])
+        return 1
+    impl = impl_factory()
+    out = [impl.step(l) for l in ops]
+    try:
+        model = lean.run_driver(ops)
+    except Exception as e:  # noqa
+        model = [f"<driver failed: {e}>"] * len(ops)
+    bad = False
+    for l, a, b in zip(ops, out, model):
+        mark = "  " if a == b else "!!"
+        bad |= a != b
+        print(f"{mark} {l[:200]}\n     implementation: {a[:300]}\n     model:          {b[:300]}")
+    name = (rec.get("signature") or {}).get("oracle")
+    orc = oracles.get(name)
+    if orc is not None:
+        p = orc(ops, out)
+        if p:
+            print("oracle:", p[0] if isinstance(p, tuple) else p)
+            bad = True
+        else:
+            print(f"oracle {name!r}: no complaint")
+    print("REPRODUCED" if bad else "not reproduced on this tree")
+    return 1 if bad else 0
